@@ -12,7 +12,10 @@ nix_manipulator). Anything outside the fragment is refused with `OutsideFragment
                   segment an identifier or a "string" without `${…}`; whitespace only between `.` and
                   the attrpath, nothing at all between the segments and dots of the attrpath),
                   `name comments : comments body` (function_expression whose argument is ONE identifier;
-                  `{ a, b }: …` and `x@{ … }: …` are refused as "function with formals")
+                  `{ a, b }: …` and `x@{ … }: …` are refused as "function with formals"),
+                  `! comments operand` / `- comments operand` (unary_expression),
+                  `left comments OP comments right` (binary_expression; OP one of `//` `++` `+` `-` `*` `/`
+                  `==` `!=` `<` `<=` `>` `>=` `&&` `||` `->`; `a ? b` (has_attr_expression) is refused)
     set members : bindings whose attrpath is ONE identifier or "string" (no inherit, no `${…}` name),
                   comments anywhere between the tokens of a binding, none between `rec` and `{`
 
@@ -36,6 +39,7 @@ LEAF_KINDS = {
     "spath_expression": "p",
 }
 KW_KINDS = {"with_expression": ("with", "environment"), "assert_expression": ("assert", "condition")}
+BIN_OPS = {"//", "++", "+", "-", "*", "/", "==", "!=", "<", "<=", ">", ">=", "&&", "||", "->"}
 WS = set(b" \t\r\n")
 
 
@@ -73,6 +77,8 @@ class _Conv:
     #      | ("D", cst, c1, g1, gd, [segment text])                gc : [(gap, comment text)]
     #      | ("O", cst, c1, g1, gd, [segment text], c2, g2, g3, cst)      select with `or` default
     #      | ("F1", name, c1, g1, c2, g2, body)                    name c1 g1 `:` c2 g2 body
+    #      | ("U", op, c, g, operand)                              op c g operand
+    #      | ("B", l, c1, g1, op, c2, g2, r)                       left c1 g1 op c2 g2 right
     # item : ("c", gap, text) | ("e", gap, cst) | ("b", gap, name, c1, g1, c2, g2, cst, c3, g3)
     def expr(self, n):
         k = LEAF_KINDS.get(n.type)
@@ -167,7 +173,42 @@ class _Conv:
             return self.lam(n)
         if n.type == "unary_expression":
             return self.unary(n)
+        if n.type == "binary_expression":
+            return self.binary(n)
         raise OutsideFragment(n.type)
+
+    def binary(self, n):
+        """left c1 g1 operator c2 g2 right — `binary_expression`"""
+        shape = OutsideFragment("binary shape")
+        ch = n.children
+        left, op, right = (n.child_by_field_name(f) for f in ("left", "operator", "right"))
+        if (left is None or op is None or right is None or len(ch) < 3 or ch[0].id != left.id
+                or ch[-1].id != right.id or left.type == "comment" or right.type == "comment"):
+            raise shape
+        if op.child_count != 0 or op.is_named or op.type not in BIN_OPS or self.t(op.start_byte, op.end_byte) != op.type:
+            raise OutsideFragment("binary operator")
+        lhs = self.expr(left)
+        runs = [[], []]  # comments before the operator, before the right operand
+        gaps = [None, None]
+        r = None
+        stage, pos, prev = 0, left.end_byte, left
+        for c in ch[1:]:
+            g = self.gap(pos, c.start_byte)
+            self.rows(prev, c, g)
+            if c.type == "comment":
+                if stage > 1:
+                    raise shape
+                runs[stage].append((g, self.t(c.start_byte, c.end_byte)))
+            elif stage == 0 and c.id == op.id:
+                gaps[0], stage = g, 1
+            elif stage == 1 and c.id == right.id:
+                gaps[1], r, stage = g, self.expr(c), 2
+            else:
+                raise shape
+            pos, prev = c.end_byte, c
+        if stage != 2:
+            raise shape
+        return ("B", lhs, runs[0], gaps[0], op.type, runs[1], gaps[1], r)
 
     def unary(self, n):
         """operator c g operand — `unary_expression`"""
@@ -434,6 +475,9 @@ def flatten(x) -> str:
         return x[1] + gc(x[2]) + x[3] + ":" + gc(x[4]) + x[5] + flatten(x[6])
     if k == "U":
         return x[1] + "".join(g + c for g, c in x[2]) + x[3] + flatten(x[4])
+    if k == "B":
+        gc = lambda r: "".join(g + c for g, c in r)  # noqa: E731
+        return flatten(x[1]) + gc(x[2]) + x[3] + x[4] + gc(x[5]) + x[6] + flatten(x[7])
     if k == "c":
         return x[1] + x[2]
     if k == "e":
@@ -472,6 +516,9 @@ def sexp(x):
         return ["F1", hx(x[1]), gc(x[2]), hx(x[3]), gc(x[4]), hx(x[5]), sexp(x[6])]
     if k == "U":
         return ["U", hx(x[1]), [[hx(g), hx(c)] for g, c in x[2]], hx(x[3]), sexp(x[4])]
+    if k == "B":
+        gc = lambda r: [[hx(g), hx(c)] for g, c in r]  # noqa: E731
+        return ["B", sexp(x[1]), gc(x[2]), hx(x[3]), hx(x[4]), gc(x[5]), hx(x[6]), sexp(x[7])]
     if k == "c":
         return ["c", hx(x[1]), hx(x[2])]
     if k == "e":
@@ -507,6 +554,8 @@ def code_tokens(x) -> list[str]:
         return [x[1], ":"] + code_tokens(x[6])
     if k == "U":
         return [x[1]] + code_tokens(x[4])
+    if k == "B":
+        return code_tokens(x[1]) + [x[4]] + code_tokens(x[7])
     if k == "c":
         return []
     if k == "e":
